@@ -51,6 +51,7 @@ int verif_thrown, verif_throw_type, verif_throw_code;
 void verif_native_load(const char *name, void *p, size_t n);
 void verif_native_assume_failed(const char *c);
 void verif_native_assert_failed(const char *msg);
+void verif_native_post_failed(const char *fn, int clause);
 #define VERIF_INPUT(x) verif_native_load(#x, &(x), sizeof(x))
 #define VERIF_ASSUME(c) { if (!(c)) verif_native_assume_failed(#c); }
 #define VERIF_ASSERT(c, msg) { if (!(c)) verif_native_assert_failed(msg); }
@@ -65,5 +66,6 @@ void verif_native_assert_failed(const char *msg);
 #define __CPROVER_assigns(...)
 #define __CPROVER_loop_invariant(x)
 #define __CPROVER_decreases(...)
+#define __CPROVER_loop_entry(x) (x)
 #endif
 #endif
